@@ -61,6 +61,8 @@ pub struct PauseRec {
     pub copied_ids: BTreeMap<u64, u32>,
     pub weak_rounds: u32,
     pub weak_traced_rounds: u32,
+    /// set when process_weak_refs saw an object the closure had not reached yet
+    pub closure_suspect: Option<String>,
     pub weak_done: bool,
     pub forward_calls: u32,
     pub enqueued: Vec<u64>,
